@@ -197,6 +197,13 @@ func report(prop, tier string, seed int, specs []HarnessSpec, known []KnownFindi
 		knownLines = append(knownLines, fmt.Sprintf("KNOWN-FINDING: property=%s %s %s [%s; harness %s, assertion %s, replay %s]", prop, k.ID, k.Text, confirmed, kv.v.Harness, kv.v.AssertID, path))
 	}
 	seenV := map[string]bool{}
+	classCount := map[string]int{}
+	for _, uv := range unknownViols {
+		classCount[uv.v.Harness+" "+uv.v.AssertID+" tags="+strings.Join(uv.v.Tags, ",")]++
+	}
+	for k, n := range classCount {
+		fmt.Printf("  violation class: %s (%d paths)\n", k, n)
+	}
 	for _, uv := range unknownViols {
 		key := uv.v.Harness + "|" + uv.v.AssertID + "|" + strings.Join(uv.v.Tags, ",")
 		if seenV[key] {
